@@ -455,6 +455,7 @@ type Contract struct {
 	Trusted   bool
 	Modifies  *ModSpec
 	Unmodelled bool
+	Callsites  []CallsiteClause
 }
 
 type SpecFunc struct {
@@ -465,6 +466,9 @@ type SpecFunc struct {
 	Src     string
 	Pkg     string // short package path it was declared in ("" = global)
 	Rec     bool
+	Ghost   bool // a ghost field: heap array indexed by the single parameter
+	ReadsHeap bool // uninterpreted function of its arguments and the whole heap (`reads heap`)
+	ReadsReach bool
 }
 
 type Axiom struct {
@@ -482,7 +486,12 @@ type SpecFile struct {
 }
 
 var clauseKeywords = map[string]bool{"func": true, "requires": true, "ensures": true, "loop": true, "nopanic": true,
-	"modifies": true, "trusted": true, "spec": true, "axiom": true, "lemma": true, "pure": true}
+	"modifies": true, "trusted": true, "spec": true, "axiom": true, "lemma": true, "pure": true, "ghost": true, "callsite": true}
+
+type CallsiteClause struct {
+	Callee string
+	Clause Clause
+}
 
 // ParseSpecFile reads the "//@" lines of a contract file. pkg is the short package path used to
 // qualify unqualified function keys.
@@ -585,6 +594,35 @@ func ParseSpecFile(path, text, pkg string) (*SpecFile, error) {
 			default:
 				return nil, errf("unknown loop clause %q", w3)
 			}
+		case "callsite":
+			// callsite <callee-suffix> requires[label] <expr>: asserted, in the caller's context
+			// (its locals are visible), at every call of a function whose key ends in the suffix
+			if cur == nil {
+				return nil, errf("callsite outside a func block")
+			}
+			callee, r2 := splitWord(rest)
+			w3, r3 := splitWord(r2)
+			lab := ""
+			if w3 == "requires" && strings.HasPrefix(r3, "[") {
+				j := strings.Index(r3, "]")
+				lab = r3[1:j]
+				r3 = strings.TrimSpace(r3[j+1:])
+			} else if strings.HasPrefix(w3, "requires[") {
+				j := strings.Index(w3, "]")
+				lab = w3[len("requires["):j]
+				w3 = "requires"
+			}
+			if w3 != "requires" {
+				return nil, errf("expected: callsite <callee> requires[label] <expr>")
+			}
+			e, err := ParseSpecExpr(r3)
+			if err != nil {
+				return nil, errf("%v", err)
+			}
+			if lab == "" {
+				lab = fmt.Sprintf("c%d", len(cur.Callsites)+1)
+			}
+			cur.Callsites = append(cur.Callsites, CallsiteClause{Callee: callee, Clause: Clause{Label: lab, Expr: e, Src: "callsite " + callee + " requires " + r3}})
 		case "nopanic":
 			if cur == nil {
 				return nil, errf("nopanic outside a func block")
@@ -621,6 +659,18 @@ func ParseSpecFile(path, text, pkg string) (*SpecFile, error) {
 				return nil, errf("%v", err)
 			}
 			f.Pkg = pkg
+			sf.Funcs = append(sf.Funcs, f)
+			cur = nil
+		case "ghost":
+			f, err := parseSpecFunc(rest)
+			if err != nil {
+				return nil, errf("%v", err)
+			}
+			if len(f.Params) != 1 || f.Body != nil {
+				return nil, errf("ghost declarations have the form: ghost name(key KeyType) ValueType")
+			}
+			f.Pkg = pkg
+			f.Ghost = true
 			sf.Funcs = append(sf.Funcs, f)
 			cur = nil
 		case "axiom", "lemma":
@@ -718,6 +768,17 @@ func parseSpecFunc(s string) (*SpecFunc, error) {
 			}
 		}
 		f.Ret = ps.typeText()
+		if strings.HasSuffix(f.Ret, "readsheap") {
+			f.Ret = strings.TrimSuffix(f.Ret, "readsheap")
+			f.ReadsHeap = true
+		}
+		if strings.HasSuffix(f.Ret, "readsreach") {
+			// depends on the memory reachable from its first argument (by static type); falls back
+			// to the whole heap when that type is not known or contains interfaces
+			f.Ret = strings.TrimSuffix(f.Ret, "readsreach")
+			f.ReadsHeap = true
+			f.ReadsReach = true
+		}
 		if ps.accept("=") {
 			f.Body = ps.expr()
 			if ps.peek().kind != "eof" {
